@@ -20,7 +20,8 @@ RULE = ("case = 1-5 servers (TCP host:port and UNIX paths, each its own memcache
         "command for key k arrives at place(node names, routing key of k) and nowhere else; a multi-key call "
         "delivers each requested key to exactly one server exactly once; get_many(keys) == {k: get(k)} for present "
         "keys (likewise gets); everything written by set / set_many is found by each single-key reader and mutator. "
-        "Also multi-key calls listing the same bare key under different server keys (each entry must reach its own server; the merged value is unspecified and not judged). Epilogue: a set_many in which one server refuses one item (too large for it / out of memory) and stores the rest - the server's error comes back, and afterwards set and get of every key still reach the server placement assigns (a refusal is not a server failure). The key collection of get_many / gets_many / delete_many is passed as list, tuple, dict view, or a one-shot iterable (iterator, generator, map object). Non-trivial: >= 2 servers each owning >= 1 of the keys and >= 1 multi-key call. The server list may be configured in equivalent spellings ('host:port', '[v6]:port', the host alone for the default port, the port as text, 'unix:' before a path). The client may be a HashClient subclass that maps keys and server keys into a namespace in every public command (mapped once, in single-key and multi-key commands alike). Two threads on one HashClient(use_pooling=True), pre-empted at every bytecode of the ring's lookup code: every key is stored where the rule puts it and found again. Second epilogue: one server adds an item nobody asked for to its answer - a multi-key read reports no key the caller did not ask for. Very long key lists: 10 001 to 31 000 (thorough 100 003) keys in one multi-key read - every key asked of its own server exactly once, every value in the result.")
+        "Also multi-key calls listing the same bare key under different server keys (each entry must reach its own server; the merged value is unspecified and not judged). Epilogue: a set_many in which one server refuses one item (too large for it / out of memory) and stores the rest - the server's error comes back, and afterwards set and get of every key still reach the server placement assigns (a refusal is not a server failure). The key collection of get_many / gets_many / delete_many is passed as list, tuple, dict view, or a one-shot iterable (iterator, generator, map object). Non-trivial: >= 2 servers each owning >= 1 of the keys and >= 1 multi-key call. The server list may be configured in equivalent spellings ('host:port', '[v6]:port', the host alone for the default port, the port as text, 'unix:' before a path). The client may be a HashClient subclass that maps keys and server keys into a namespace in every public command (mapped once, in single-key and multi-key commands alike). Two threads on one HashClient(use_pooling=True), pre-empted at every bytecode of the ring's lookup code: every key is stored where the rule puts it and found again. Second epilogue: one server adds an item nobody asked for to its answer - a multi-key read reports no key the caller did not ask for. Very long key lists: 10 001 to 31 000 (thorough 100 003) keys in one multi-key read - every key asked of its own server exactly once, every value in the result."
+        + ' Keys that carry the key prefix (twins prefix+K next to K); server keys spelled like a node name; set_many of which the servers refuse every n-th item (NOT_STORED): the answer names exactly those keys.')
 MANIFEST = {
     "category": "exploration",
     "technique": "Hypothesis-generated server sets, key sets and operation scripts over several memcached models behind one fake network; per-server command logs compared with an independent rendezvous/murmur3 reference, plus metamorphic agreement between multi-key and single-key operations",
